@@ -691,12 +691,14 @@ def trusted_base(prop):
 
 
 def partial_clauses(prop):
-    return ["C18_h_column_bands, parent joined to exactly its children, and decodability of the horizontal form: no "
-            "Coq theorem; decided on every output by the boolean decoder h_decode of Spec/PC18.v (guided pass for "
-            "every style, text-only pass for styles whose first/last-child icons are recognisable; the all-'+' "
-            "ascii style only by the guided pass)",
-            "C18_h_leaf_order is proved in its model-level form (rows = prefix ++ leaf cell, cells in pre-order); the "
-            "boolean h_leaf_order that first cuts rows into column bands is evaluated on outputs only",
+    return ["decodability of the horizontal form (a decoder that rebuilds the tree from hyield_tree's text): no Coq "
+            "theorem about the decoder itself; proved instead are the geometric facts it relies on (C18_h_rows, "
+            "C18_h_branch_row_inside, C18_h_leaf_order, C18_h_column_bands, C18_h_connectors), and the boolean "
+            "decoder h_decode of Spec/PC18.v is evaluated on every output (guided pass for every style, text-only "
+            "pass for styles whose first/last-child icons are recognisable; the all-'+' ascii style only guided)",
+            "C18_h_leaf_order / C18_h_column_bands / C18_h_connectors are stated on the model's rows (prefix ++ leaf "
+            "cell, prefix widths, prefix column); the boolean forms h_leaf_order / h_geometry that first cut the text "
+            "into bands are evaluated on outputs only",
             "C18_dot_ids_injective only under the guards 'no label ends in a decimal digit' (K2), 'path names "
             "pairwise different', 'no label contains a colon' (K5)",
             "C18_mermaid_graph only for trees with >= 2 nodes (K4)"]
